@@ -374,6 +374,26 @@ def check(run):
             m0 = sorted(set(refused) & recorded)[0]
             run.violation("failing-input", {"kind": "x86-refuses-valid-form", "group": "x86-refuses-vex-w-opcode-forms"},
                           f"`.arch x86 ; {refused[m0]}` is refused (64 bit operand size) although the form exists in 32-bit mode", {"stream": "plug", "input": [f"cl ; .arch x86 ; {refused[m0]}"]})
+        # the converse: where VEX.W / XOP.W selects a 64-bit GENERAL PURPOSE operand (forms with an r / v / fixed-register slot) it exists in long
+        # mode only — in 32-bit mode the processor ignores W and executes the 32-bit instruction (SDM: VPEXTRQ, VPINSRQ, VMOVQ r/m64 … are
+        # "V/N.E."). llvm-mc 14 does not enforce this for memory operands, so the rule is stated here. Memory instantiations, as no 64-bit register
+        # can be named in x86 mode
+        gp = [e for e in cand if any(c in "rv" or "A" <= c <= "P" for (c, _) in x64sweep.slots(e))]
+        gprobes = []
+        for e in gp:
+            for it in x64sweep.instances(e, "x86")[:4]:
+                # only lines for which the matcher takes THIS entry (`vmovq xmm, m64` is matched by the W0 form F3 0F 7E first)
+                if x64sweep.select(e["m"], it.ops, "x86") == e["i"]:
+                    gprobes.append((e["m"], it.line))
+        gans = plug([f"cl ; .arch x86 ; {l}" for (_, l) in gprobes])
+        stats["x86_vex_w_gp_probes"] = len(gprobes)
+        seen_gp = set()
+        for (m, l), a in zip(gprobes, gans):
+            if a.startswith("ok") and m not in seen_gp and len(seen_gp) < 4:
+                seen_gp.add(m)
+                run.violation("failing-input", {"kind": "x86-accepts-long-mode-only-form", "mnemonic": m},
+                              f"`.arch x86 ; {l}` is accepted ({a[:70]}): VEX.W = 1 selects a 64-bit general purpose operand, which exists in long mode only — a 32-bit processor "
+                              f"ignores W and executes the 32-bit instruction", {"stream": "plug", "input": [f"cl ; .arch x86 ; {l}"], "impl": [a]})
         for m in sorted(set(refused) - recorded)[:4]:
             run.violation("failing-input", {"kind": "x86-refuses-valid-form", "mnemonic": m},
                           f"`.arch x86 ; {refused[m]}` is refused (\"Does not support 64 bit operand size in 32-bit mode\") although the form exists in 32-bit mode: "
